@@ -131,7 +131,13 @@ def random_accept(rng, depth, p_keep=None):
     """Arbitrary subset of the positions at levels 1..depth."""
     if p_keep is None:
         p_keep = rng.choice([0.35, 0.55, 0.7, 0.85, 0.95])
-    return [p for p in all_positions(depth, 1) if rng.random() < p_keep]
+    acc = set(p for p in all_positions(depth, 1) if rng.random() < p_keep)
+    if depth >= 2 and rng.random() < 0.6:
+        # make some accepted tiles "dead": accepted, but none of their children is
+        inner = sorted(p for p in acc if p[0] < depth and reachable(p, "f", acc))
+        for p in rng.sample(inner, min(len(inner), rng.randint(1, 3))):
+            acc -= set(children(p))
+    return sorted(acc)
 
 
 def random_apex(rng, depth, accept=None, kind="g"):
@@ -155,6 +161,17 @@ def corner_shapes(depth):
     # filter accepting a tile but none of its children (at every level)
     for n in range(1, depth):
         out.append(("f", depth, [p for p in pos if p[0] <= n], None))
+    # one accepted tile at level n without any accepted child, next to live siblings (a "dead" tile)
+    for n in range(1, depth):
+        t = (n, 2 ** n - 1, 0)
+        out.append(("f", depth, [p for p in pos if p not in children(t)], None))
+    # three of four siblings just above the leaves are dead
+    if depth >= 2:
+        par = (depth - 2, 0, 0)
+        deadset = set()
+        for t in children(par)[:3]:
+            deadset |= set(children(t))
+        out.append(("f", depth, [p for p in pos if p not in deadset], None))
     # filter accepting everything except one whole level-1 quadrant / except one leaf
     out.append(("f", depth, [p for p in pos if anc(p, 1) != (1, 1, 0)], None))
     out.append(("f", depth, [p for p in pos if p != (depth, 2 ** depth - 1, 2 ** depth - 1)], None))
